@@ -55,7 +55,7 @@ impl Property for C25 {
         vec!["a crashed handler task is observed as a recorded panic plus a missing response (the dispatcher spawns one task per request)".into()]
     }
     fn cases(&self, tier: Tier) -> u32 {
-        tier.pick(2500, 150_000)
+        tier.pick(10_000, 150_000)
     }
     fn strategy(&self, tier: Tier) -> BoxedStrategy<Case> {
         (
